@@ -136,7 +136,7 @@ class RMSE(PredictMetric, ListMetric, DecomposedMetric):
         ps, ts = self.align_scores(output, test)
         err = ps - ts
         err *= err
-        return np.sum(err), len(err)
+        return np.sum(err), int(err.count())
 
     @override
     def extract_list_metric(self, metric):
@@ -186,7 +186,7 @@ class MAE(PredictMetric, ListMetric, DecomposedMetric):
     def compute_list_data(self, output, test):
         ps, ts = self.align_scores(output, test)
         err = ps - ts
-        return np.sum(np.abs(err)), len(err)
+        return np.sum(np.abs(err)), int(err.count())
 
     @override
     def extract_list_metric(self, metric):
@@ -204,7 +204,7 @@ class MAE(PredictMetric, ListMetric, DecomposedMetric):
             tot_err += t
             tot_n += n
 
-        if n > 0:
+        if tot_n > 0:
             return tot_err / tot_n
         else:
             return np.nan
